@@ -271,6 +271,25 @@ func c01Gen(r *Rand, tier string, i int) Scenario {
 		}
 		sc.Content, sc.Desc = b, "boundary-size"
 	}
+	if r.Bool(0.06) {
+		// several long lines in a row (each longer than the 32 KiB pieces in which
+		// the pipeline hands data on, shorter than MaxLineLength), all different:
+		// whatever is left of one line is still on its way when the next is read
+		sc.Cfg.MLL = PickOf(r, 40000, 1024*1024, 1024*1024)
+		var out bytes.Buffer
+		nl := r.Range(2, 6)
+		for i := 0; i < nl && out.Len() < max; i++ {
+			l := PickOf(r, 32767, 32768, 32769, 33000, 36000, 39990)
+			if sc.Cfg.MLL > 40000 && r.Bool(0.5) {
+				l = PickOf(r, 50000, 65535, 65536, 70000)
+			}
+			out.Write(genBytes(r, l, 2))
+			if i < nl-1 || r.Bool(0.7) {
+				out.WriteByte('\n')
+			}
+		}
+		sc.Content, sc.Desc = out.Bytes(), "long-lines"
+	}
 	if r.Bool(0.12) {
 		// many short lines (more than the two 100-slot queues hold) and a consumer
 		// that pauses early on: the reader waits behind a full queue, reaches EOF
